@@ -102,6 +102,7 @@ def correspond(ctx):
     ctx.extra["traced_days_with_an_unstable_substep"] = max([x.get("unstable_days", 0) for x in runs_] or [0])
     ctx.extra["traced_days_with_an_unstable_substep_before_the_last"] = max([x.get("unstable_early_days", 0) for x in runs_] or [0])
     ctx.extra["nitro_calls_of_later_substeps_checked_for_bookings"] = max([x.get("later_substep_nitro_calls", 0) for x in runs_] or [0])
+    ctx.extra["pre_harvest_days_checked_for_the_per_crop_fixation_figure"] = max([x.get("per_crop_fixation_checked", 0) for x in runs_] or [0])
     ctx.extra["resprouting_events_of_a_permanent_crop_checked"] = max([x.get("resprouting_events", 0) for x in runs_] or [0])
     ctx.extra["max_abs_n_residual"] = max([abs(d["res"]) for d in days] or [0.0])
     ctx.extra["traced_days_clamp_free"] = sum(1 for d in days if d["clean"])
